@@ -25,15 +25,49 @@ func init() {
 	c := eng.Register(&eng.Check{
 		ID:          "C20",
 		Title:       "A runner behaves like a plain map of data plus a separate key-value store",
-		Rule:        "operation menu of 29 (SetThis with nil / fresh maps / the same map again, SetThisValue, Resolve of 8 formulas that read and assign locals and fields, Set, Get): every history up to depth d is replayed on a fresh real runner in lock-step with a plain-map reference model (no state merging); then breadth-first to depth 5 (quick) / 7 (thorough) with merging on the canonical observed state, where a state reached a second way must answer every probe like the first; after every step all caller-visible maps must equal the model's; distinct = distinct canonical states",
+		Rule:        "operation menu of 36 (SetThis with nil / fresh maps / the same map again, SetThisValue, Resolve of formulas that read and assign locals and fields, that fail in three different ways, and that read keys beginning with underscores, Set, Get); one operation repeated 25 000 (quick) / 120 000 (thorough) times after four prefixes, followed by every read: every history up to depth d is replayed on a fresh real runner in lock-step with a plain-map reference model (no state merging); then breadth-first to depth 5 (quick) / 7 (thorough) with merging on the canonical observed state, where a state reached a second way must answer every probe like the first; after every step all caller-visible maps must equal the model's; distinct = distinct canonical states",
 		TrustedBase: []string{"plain-map model of the runner in checks/c20.go"},
 		Assumptions: []string{"merging drops caller maps the runner no longer references; leaks into them are covered by the unmerged exploration"},
 		Run:         runC20,
 	})
+	c20Soak = eng.NewKind(c, "soak", judgeSoak)
 	c20Hist = eng.NewKind(c, "history", func(c HistCase) *eng.Fail {
 		_, f := replayHist(c.Ops, true)
 		return f
 	})
+}
+
+// SoakCase: a prefix, then one operation repeated N times on the same runner, then every read operation.
+// (State that accumulates on a runner - counters, buffers, leaked depth - only shows after many steps.)
+type SoakCase struct {
+	Prefix []int `json:"prefix"`
+	Op     int   `json:"op"`
+	N      int   `json:"n"`
+}
+
+var c20Soak *eng.Kind[SoakCase]
+
+func judgeSoak(c SoakCase) *eng.Fail {
+	w := newWorld()
+	for _, op := range c.Prefix {
+		if f := w.apply(op); f != nil {
+			return f
+		}
+	}
+	for i := 0; i < c.N; i++ {
+		if f := w.apply(c.Op); f != nil {
+			f.Msg = fmt.Sprintf("after %v, repetition %d of %s: %s", opNames(c.Prefix), i+1, c20OpNames[c.Op], f.Msg)
+			return f
+		}
+	}
+	for _, op := range []int{9, 10, 14, 15, 16, 20, 21, 23, 25, 28, 32, 35, 11, 13, 10, 14} {
+		if f := w.apply(op); f != nil {
+			f.Msg = fmt.Sprintf("after %v and %d x %s: %s", opNames(c.Prefix), c.N, c20OpNames[c.Op], f.Msg)
+			return f
+		}
+	}
+	outcome(fmt.Sprint("soak ", c.Op))
+	return nil
 }
 
 var c20OpNames = []string{
@@ -43,10 +77,21 @@ var c20OpNames = []string{
 	"Set(x,1)", "Set($a,2)", "Set(x,2)", "Get(x)", "Get($a)",
 	"Resolve($a = 7 / 3)", "Resolve(($a ?? 1) * 3)", "Resolve($a = 9007199254740993)", "Resolve(($a ?? 0) - 9007199254740992)", "Resolve($a = ($b = 2))",
 	"Resolve($a = 2.75)", "Resolve(len(left('abcdef', $a ?? 1)))",
+	"Resolve(regexp('a','(')) fails", "Resolve(missing!.a1.a2...a100) fails", "Resolve(x(1)) fails",
+	"Resolve(__t)", "SetThisValue(__t,3)", "SetThis(fresh {__t:4,___u:5})", "Resolve([__t, this.___u, ___u, this.__t])",
 }
 
+var c20DeepChain = func() string {
+	s := "missing!.a1"
+	for i := 2; i <= 100; i++ {
+		s += ".a" + strconv.Itoa(i)
+	}
+	return s
+}()
+
 var c20Formulas = map[int]string{9: "x", 10: "$a", 11: "$a = x", 12: "$a = 2", 13: "$b = $a", 14: "[$a,$b,x]", 15: "this.x", 16: "this",
-	22: "$a = 7 / 3", 23: "($a ?? 1) * 3", 24: "$a = 9007199254740993", 25: "($a ?? 0) - 9007199254740992", 26: "$a = ($b = 2)", 27: "$a = 2.75", 28: "len(left('abcdef', $a ?? 1))"}
+	22: "$a = 7 / 3", 23: "($a ?? 1) * 3", 24: "$a = 9007199254740993", 25: "($a ?? 0) - 9007199254740992", 26: "$a = ($b = 2)", 27: "$a = 2.75", 28: "len(left('abcdef', $a ?? 1))",
+	29: "regexp('a','(')", 30: c20DeepChain, 31: "x(1)", 32: "__t", 35: "[__t, this.___u, ___u, this.__t]"}
 
 // exact values behind the canonical strings of the model (numbers only)
 var c20Decs = map[string]ref.Dec{}
@@ -174,7 +219,26 @@ func (w *c20World) apply(op int) *eng.Fail {
 		v := []float64{1, 2, 1, 2}[op-5]
 		w.r.SetThisValue(k, v)
 		w.ensure()[k] = canonImpl(v)
-	case op >= 9 && op <= 16, op >= 22 && op <= 28:
+	case op >= 29 && op <= 31:
+		// a failing evaluation (through a recovered panic, an ordinary error, a call of a non-function)
+		// reports an error and leaves everything as it was
+		p, err := cachedParse(c20Formulas[op])
+		if err != nil {
+			return eng.F("C20/parse", "%s: %v", name, err)
+		}
+		o := safeResolve(w.r, bg, p.Expression)
+		if o.panicked {
+			return eng.F("C20/panic", "%s: %s", name, o.panicMsg)
+		}
+		if o.err == nil || o.val != nil {
+			return eng.F("C20/expected-error", "%s = %s, expected an error", name, show(o.val))
+		}
+	case op == 33:
+		w.r.SetThisValue("__t", 3.0)
+		w.ensure()["__t"] = canonImpl(3.0)
+	case op == 34:
+		fresh(map[string]interface{}{"__t": 4.0, "___u": 5.0})
+	case op >= 9 && op <= 16, op >= 22 && op <= 28, op == 32, op == 35:
 		src := c20Formulas[op]
 		p, err := cachedParse(src)
 		if err != nil {
@@ -258,6 +322,10 @@ func (w *c20World) apply(op int) *eng.Fail {
 				k = n.Int64()
 			}
 			want = c20Canon(ref.FromInt64(k))
+		case 32:
+			want = get(m, "__t")
+		case 35:
+			want = "[" + get(m, "__t") + "," + get(m, "___u") + "," + get(m, "___u") + "," + get(m, "__t") + "]"
 		case 26:
 			want = "n2"
 			mm := w.ensure()
@@ -388,6 +456,29 @@ func runC20(w *eng.W) {
 				outcome(wd.key())
 			}
 		})
+	}
+	// long histories: one operation repeated many times on one runner
+	reps := 25000
+	if !w.Quick() {
+		reps = 120000
+	}
+	for _, prefix := range [][]int{{}, {2, 12}, {34, 33}, {0, 7}} {
+		for op := 0; op < nops; op++ {
+			if !w.Take() {
+				continue
+			}
+			n := reps
+			if op < 29 || op > 31 {
+				n = reps / 10 // operations that succeed: shorter runs
+			}
+			w.State(1)
+			w.Trans(int64(n))
+			w.Trace(1)
+			w.Note("leg:soak", 1)
+			c := SoakCase{Prefix: prefix, Op: op, N: n}
+			w.Sample("soak", c)
+			c20Soak.Do(w, c)
+		}
 	}
 	if !w.First() {
 		return
